@@ -47,12 +47,14 @@ def c_out(oc: Any) -> str:
         return 'OPerm'
     if oc == 'arb':
         return 'OArb'
+    if oc[0] == 'child':
+        return f'(OChild {c_oz(oc[1])})'
     return f'(OTemp {c_oz(oc[1])})'
 
 
 def c_case(case: dict) -> str:
     env = (f"(mkenv {cq.cZ(case.get('irt0', 0))} {cq.clist(cq.cZ(r) for r in sorted(case.get('resets', [])))} "
-           f"{c_oz(case.get('stop'))} {cq.cZ(case['horizon'])})")
+           f"{c_oz(case.get('stop'))} {cq.cZ(case['horizon'])} {cq.clist(cq.cZ(r) for r in sorted(case.get('late', [])))})")
     script = cq.clist(f'(mkentry {cq.cZ(d)} {cq.cZ(p)} {c_out(o)})' for d, p, o in case['script'])
     return f"(timer_run {FUEL}%nat {c_cfg(case['cfg'])} {env} {cq.cZ(case.get('spawn', 0))} {script})"
 
@@ -96,12 +98,13 @@ def monitor(case: dict, obs: dict, tol: float = 0) -> list[tuple[str, str, Any, 
     backoff = cfg.get('backoff') if cfg.get('backoff') is not None else case.get('default_backoff', DEFAULT_BACKOFF)
     spawn = case.get('spawn', 0)
     changes = sorted([case.get('irt0', 0)] + list(case.get('resets', [])))
+    late = sorted(case.get('late', []))     # essential changes that happened AFTER the timer's step of their instant
     script = case['script']
     cyc = obs['cycles']
     out: list[tuple[str, str, Any, Any]] = []
 
     def last_change(t: float) -> float:
-        past = [r for r in changes if r <= t + tol]
+        past = [r for r in changes if r <= t + tol] + [r for r in late if r < t - tol]
         return max(past) if past else changes[0]
 
     def clear(t: float) -> bool:
@@ -114,7 +117,7 @@ def monitor(case: dict, obs: dict, tol: float = 0) -> list[tuple[str, str, Any, 
             return
         if not clear(start):
             return  # reported by the idle law itself
-        cands = [base] + [r + idle for r in changes] if idle is not None else [base]
+        cands = [base] + [r + idle for r in changes + late] if idle is not None else [base]
         for x in sorted(cands):
             if base - tol <= x < start - tol and clear(x):
                 out.append((sig + '-late', f'{what}: run {k + 1} starts later than idling explains', start, x))
@@ -155,7 +158,7 @@ def monitor(case: dict, obs: dict, tol: float = 0) -> list[tuple[str, str, Any, 
                 else:
                     check_next_start('after-success-interval', 'one interval after the previous end', a[2] + max(0, interval), b[0], k)
             elif idle is not None:
-                if b[0] < a[2] - tol or not any(a[0] < r <= b[0] + tol for r in case.get('resets', [])):
+                if b[0] < a[2] - tol or not (any(a[0] < r <= b[0] + tol for r in case.get('resets', [])) or any(a[0] < r < b[0] for r in late)):
                     out.append(('idle-only', f'idle-only timer: run {k + 1} without an essential change after run {k} started', b[0], None))
             else:
                 out.append(('one-shot', 'timer with neither interval nor idle ran again after a finished run', b[0], None))
@@ -183,6 +186,17 @@ def monitor(case: dict, obs: dict, tol: float = 0) -> list[tuple[str, str, Any, 
                 out.append(('run-after-final-failure', f'the function is entered again (cycle {later[0]}) after the timer failed for good in cycle {k}',
                             cyc[later[0]][0], 'no further run'))
             break
+    # a due run is MADE: the first cycle and every cycle after a success enters the function, however long idling
+    # postponed it (the handler's timeout must not count the idle wait: finding F1001, /repo 071710e) -- unless the
+    # handler is declared with timeout <= 0 or retries <= 0
+    if (cfg.get('timeout') is None or cfg['timeout'] > 0) and (cfg.get('retries') is None or cfg['retries'] > 0):
+        for k, c in enumerate(cyc):
+            prev_ok = k == 0 or (cyc[k - 1][3] and cyc[k - 1][4] and
+                                 (script[k - 1][2] == 'ok' or (script[k - 1][2] == 'arb' and errors == 'ignored')))
+            if prev_ok and not c[3]:
+                out.append(('due-run-not-made', f'cycle {k} is due with a fresh handler state but the function is not entered '
+                            '(timed out / out of retries without a single call)', c, 'the function is entered'))
+                break
     # a timer must not spin without suspending once its stopper is set (it blocks the whole event loop)
     if obs['final'][0] == 'stall' and case.get('stop') is not None and obs['final'][1] >= case['stop'] - tol:
         out.append(('stall-under-stop', 'the timer loops without ever suspending after its stopper was set', obs['final'], 'the task ends'))
@@ -250,7 +264,8 @@ def gen_cfg(r: Any) -> dict:
 def gen_outcome(r: Any, failing: float) -> Any:
     if r.random() >= failing:
         return 'ok'
-    return r.choice([['temp', None], ['temp', 0], ['temp', 125], ['temp', 500], ['temp', 2000], 'perm', 'arb', 'arb'])
+    return r.choice([['temp', None], ['temp', 0], ['temp', 125], ['temp', 500], ['temp', 2000], 'perm', 'arb', 'arb',
+                     ['child', None], ['child', 250], ['child', 1500]])
 
 
 def gen_case(r: Any) -> dict:
@@ -262,8 +277,26 @@ def gen_case(r: Any) -> dict:
     script = [[max(0, r.choice(durs)), r.choice(PLATS), gen_outcome(r, failing)] for _ in range(n)]
     resets = sorted(125 * r.randrange(0, 120) for _ in range(r.choice([0, 0, 1, 2, 3, 4])))
     stop = 125 * r.randrange(0, 160) if r.random() < 0.35 else None
-    return {'cfg': cfg, 'script': script, 'resets': resets, 'stop': stop, 'irt0': 0,
-            'spawn': r.choice([0, 0, 0, 1000, 2625]), 'horizon': 40000}
+    spawn = r.choice([0, 0, 0, 1000, 2625])
+    late = sorted(125 * r.randrange(0, 120) for _ in range(r.choice([0, 0, 0, 1, 2])))
+    return {'cfg': cfg, 'script': script, 'resets': resets, 'late': late, 'stop': stop, 'irt0': 0,
+            'spawn': spawn, 'horizon': 40000}
+
+
+def coincide(r: Any, case: dict) -> dict:
+    """Second pass: place essential changes EXACTLY on instants at which the timer acted in a first pass (run start,
+    patch end, wake-up from a sleep), as early (before the timer's step) or late (after it) changes."""
+    obs = drv.drive(case)
+    instants = sorted({c[0] for c in obs['cycles']} | {c[2] for c in obs['cycles']} | {w for _, _, w in obs['sleeps'] if w is not None})
+    if not instants:
+        return case
+    case = dict(case, resets=list(case['resets']), late=list(case.get('late', [])))
+    for _ in range(r.choice([1, 1, 2])):
+        t = r.choice(instants)
+        (case['late'] if r.random() < 0.6 else case['resets']).append(t)
+    case['resets'].sort()
+    case['late'].sort()
+    return case
 
 
 def sweep_cases() -> Iterable[dict]:
@@ -305,6 +338,15 @@ CORPUS: list[dict] = [
     # stop during the initial delay; stop while the function runs
     {'cfg': {'interval': 1000, 'initial_delay': 3000}, 'script': [[250, 0, 'ok']], 'stop': 1000},
     {'cfg': {'interval': 1000, 'sharp': True}, 'script': [[2500, 0, 'ok'], [0, 0, 'ok']], 'stop': 1125},
+    # an essential change at the very instant a run starts: LATE (after the timer's step: the run happens, the next one
+    # is postponed) vs EARLY (before it: this run is postponed)
+    {'cfg': {'interval': 1000, 'idle': 2000}, 'script': [[125, 0, 'ok']] * 3, 'irt0': -10000, 'late': [1125]},
+    {'cfg': {'interval': 1000, 'idle': 2000}, 'script': [[125, 0, 'ok']] * 3, 'irt0': -10000, 'resets': [1125]},
+    # HandlerChildrenRetry: retried after its own delay, no look-ahead checks although retries=1 / timeout are set
+    {'cfg': {'interval': 1000, 'retries': 1, 'timeout': 100}, 'script': [[250, 0, ['child', 500]], [0, 0, ['child', None]], [0, 0, 'ok'], [0, 0, 'ok']]},
+    # regression for finding F1001 (fixed in /repo 071710e): the idle wait must not count towards the handler's timeout
+    {'cfg': {'interval': 1000, 'idle': 4000, 'timeout': 1000}, 'script': [[125, 0, 'ok']] * 3},
+    {'cfg': {'interval': 1000, 'idle': 2000, 'timeout': 1000}, 'script': [[125, 0, 'ok']] * 3, 'irt0': -10000, 'resets': [1000]},
     # degenerate numbers (Python's float % has the sign of the divisor, as Z.modulo has; sleep(<=0) does not suspend)
     {'cfg': {'idle': 0}, 'script': [[125, 0, 'ok'], [0, 0, 'ok']]},
     {'cfg': {'idle': -500, 'interval': 1000, 'initial_delay': -5}, 'script': [[125, 0, 'ok'], [0, 0, 'ok']]},
@@ -317,7 +359,8 @@ def norm_case(c: dict) -> dict:
     cfg = {'interval': None, 'sharp': None, 'idle': None, 'initial_delay': None, 'retries': None, 'timeout': None,
            'backoff': None, 'errors': None}
     cfg.update(c.get('cfg', {}))
-    return {'cfg': cfg, 'script': [list(e) for e in c['script']], 'resets': sorted(c.get('resets', [])), 'stop': c.get('stop'),
+    return {'cfg': cfg, 'script': [list(e) for e in c['script']], 'resets': sorted(c.get('resets', [])),
+            'late': sorted(c.get('late', [])), 'stop': c.get('stop'),
             'irt0': c.get('irt0', 0), 'spawn': c.get('spawn', 0), 'horizon': c.get('horizon', 40000)}
 
 
@@ -369,9 +412,20 @@ def check_case(ctx: fw.Ctx, case: dict, D: list[fw.Case], stats: bool = True) ->
                 ctx.count('outcomes', 'ignored error' if (case['script'][k][2] == 'arb' and cfg['errors'] == 'ignored') else 'final failure (no run may follow)')
         if obs['final'][0] == 'stall':
             ctx.count('outcomes', 'idle-only wait with idle<=0 never suspends (no stopper set)')
-        if any(a[0] < r <= a[1] for a in obs['cycles'] for r in case['resets']):
+        allch = case['resets'] + case.get('late', [])
+        starts = {c[0] for c in obs['cycles']}
+        wakes = {w for _, _, w in obs['sleeps'] if w is not None} | {c[2] for c in obs['cycles']}
+        for kind, lst in (('early', case['resets']), ('late', case.get('late', []))):
+            for r_ in lst:
+                ctx.count('change_position', f'{kind} change ' + ('exactly at a cycle start' if r_ in starts else
+                          'exactly at a wake-up / patch end' if r_ in wakes else 'between the timer\'s steps'))
+        for k, c in enumerate(obs['cycles']):
+            if c[3]:
+                o = case['script'][k][2]
+                ctx.count('outcome_kind', o if isinstance(o, str) else o[0] + ('(delay=None)' if o[1] is None else '(delay)'))
+        if any(a[0] < r <= a[1] for a in obs['cycles'] for r in allch):
             ctx.count('schedule', 'essential change while the function runs')
-        if any(t < r <= w for t, d, w in obs['sleeps'] if w is not None for r in case['resets']):
+        if any(t < r <= w for t, d, w in obs['sleeps'] if w is not None for r in allch):
             ctx.count('schedule', 'essential change during a sleep')
         if case['stop'] is not None:
             ctx.count('schedule', 'stopper set')
@@ -400,7 +454,10 @@ def run(ctx: fw.Ctx) -> int:
 
     n = ctx.scale(2400, 40000)
     for _ in range(n):
-        check_case(ctx, gen_case(ctx.rng), D)
+        case = gen_case(ctx.rng)
+        if ctx.rng.random() < 0.3:
+            case = coincide(ctx.rng, case)
+        check_case(ctx, case, D)
     if ctx.thorough:
         for c in sweep_cases():
             check_case(ctx, norm_case(c), D)
